@@ -104,7 +104,37 @@ func runC46(c *core.Check) {
 			}
 			return core.ObjOf(info, sel.X), f.Name()
 		}
+		getEG := func(call *ast.CallExpr) (types.Object, string) {
+			sel, ok := call.Fun.(*ast.SelectorExpr)
+			if !ok {
+				return nil, ""
+			}
+			f := core.CalleeOf(info, call)
+			if f == nil || f.Pkg() == nil || f.Pkg().Path() != "golang.org/x/sync/errgroup" {
+				return nil, ""
+			}
+			return core.ObjOf(info, sel.X), f.Name()
+		}
 		for _, call := range core.Calls(fi.Decl.Body, true) {
+			if core.IsCallTo(info, call, "golang.org/x/sync/errgroup.WithContext") {
+				c.Fail("C46.join", "errgroup-with-context:"+fname(fi), call.Pos(), "workers run under an errgroup context: the first failing image cancels its siblings, so which loadable images are bundled (and which are reported) depends on completion order")
+			}
+			if o, m := getEG(call); o != nil {
+				if wgs[o] == nil {
+					wgs[o] = &wgFacts{doneInGo: map[*ast.BlockStmt]bool{}}
+				}
+				switch m {
+				case "Wait":
+					wgs[o].waits = append(wgs[o].waits, call)
+				case "Go":
+					if len(call.Args) == 1 {
+						if lit, ok := call.Args[0].(*ast.FuncLit); ok {
+							wgs[o].doneInGo[lit.Body] = true // the group accounts for the goroutine itself
+						}
+					}
+				}
+				continue
+			}
 			o, m := getWG(call)
 			if o == nil {
 				continue
@@ -163,6 +193,62 @@ func runC46(c *core.Check) {
 				}
 			}
 			c.Decide(okJoin, "C46.join", "close-after-wait:"+fname(fi)+":"+ch.Name(), call.Pos(), "wg.Wait() dominates close("+ch.Name()+")", "the results channel is closed without waiting for every worker: late results are dropped or a send panics")
+		}
+		// semaphores: a buffered channel that is sent to before a worker starts and received from inside the
+		// worker must be released on every exit of the worker (deferred), or slots leak on the failure path
+		semas := map[types.Object]bool{}
+		ast.Inspect(fi.Decl.Body, func(n ast.Node) bool {
+			if ss, ok := n.(*ast.SendStmt); ok && inGo(ss) != nil {
+				// sends inside the spawner goroutine (not inside a worker that also receives) mark candidates
+				if o := core.ObjOf(info, ss.Chan); o != nil {
+					if ch, ok := o.Type().Underlying().(*types.Chan); ok {
+						if b, ok := ch.Elem().Underlying().(*types.Struct); ok && b.NumFields() == 0 {
+							semas[o] = true
+						}
+					}
+				}
+			}
+			return true
+		})
+		for sem := range semas {
+			for _, gb := range goBodies {
+				var recvs []ast.Node
+				ast.Inspect(gb.Block, func(n ast.Node) bool {
+					if u, ok := n.(*ast.UnaryExpr); ok && u.Op == token.ARROW && core.ObjOf(info, u.X) == sem {
+						if b := inGo(u); b != nil && b.Block == gb.Block {
+							recvs = append(recvs, u)
+						}
+					}
+					return true
+				})
+				if len(recvs) == 0 {
+					continue
+				}
+				fl := core.NewFlow(fi.Pkg, gb.Block)
+				release := func(n ast.Node) bool {
+					for _, r := range recvs {
+						if n == r {
+							return true
+						}
+					}
+					if d, ok := n.(*ast.DeferStmt); ok {
+						for _, r := range recvs {
+							if d.Pos() <= r.Pos() && r.End() <= d.End() {
+								return true
+							}
+						}
+					}
+					return false
+				}
+				bad := false
+				for _, ex := range fl.Exits() {
+					if reach, _ := fl.ReachableAvoiding(ex.Blk, ex.Idx, release); reach {
+						bad = true
+					}
+				}
+				c.Decide(!bad, "C46.join", "semaphore-released-on-every-exit:"+fname(fi)+":"+sem.Name(), recvs[0].Pos(), "slot released by a deferred receive registered before any return",
+					"a worker can return without giving its semaphore slot back: after enough failures the spawner blocks forever and the remaining images are never processed")
+			}
 		}
 		// Add(len(xs)) vs spawn loop
 		for o, wf := range wgs {
